@@ -428,7 +428,20 @@ def fixed_docs():
              ["list", mp([[QK, sq([al("defaults", df8)])], ["z", sc(3)]])],
              ["both", mp([["<<", al("defaults", df8)], [QK, sc(7)], ["z", sc(3)]])]])
     d8["es"][3][1]["qstyle"] = "'"
-    return [d1, d2, d3, d4, d5, d6, d7, d8, mp([]), mp([["k", sc("null")]])]
+    # the same anchor used twice, read by iterating paths
+    b9 = mp([["x", sc(1)], ["y", sq([sc(2), sc(3)])]], "base")
+    d9 = mp([["base", b9], ["items", sq([al("base", b9), al("base", b9)])],
+             ["m1", mp([["<<", al("base", b9)], ["k", sc(1)]])], ["m2", mp([["<<", al("base", b9)], ["k", sc(2)]])]])
+    # an anchor name redefined INSIDE the node that first carries it; aliases after the inner definition mean the inner node
+    lv = sc(3, "x")
+    d10 = mp([["defaults", mp([["level", lv], ["copy", al("x", lv)]], "x")], ["other", al("x", lv)]])
+    inner = mp([["port", sc(80)], ["tls", sc("va")]], "cfg")
+    d11 = mp([["base", mp([["inner", inner], ["svc", mp([["<<", al("cfg", inner)], ["name", sc("vb")], ["tls", sc("vc")]])],
+                           ["list", sq([al("cfg", inner)])]], "cfg")]])
+    s12 = sq([sc(1, "q"), al("q", None)], "q")
+    s12["items"][1]["target"] = s12["items"][0]
+    d12 = mp([["s", s12], ["t", al("q", s12["items"][0])]])
+    return [d1, d2, d3, d4, d5, d6, d7, d8, d9, d10, d11, d12, mp([]), mp([["k", sc("null")]])]
 
 
 # --------------------------------------------------------------------------
@@ -539,6 +552,29 @@ def judge_doc(doc, truth, paths, rs, ryaml):
     return res
 
 
+def iter_exprs(truth, limit=6):
+    """iterating reads: [P[].k] over sequences of maps, [(P1, P2) | .k] over sibling maps; -> [(expr, expected)]"""
+    out = []
+    for p in all_paths(truth):
+        v = get_path(truth, p)[1]
+        if isinstance(v, list) and len(v) >= 2 and all(isinstance(e, dict) for e in v):
+            # a key every element has (reading a missing key would create it in the shared target: not this property's business)
+            ks = [k for k in v[0] if k != "<<" and all(k in e for e in v)]
+            if ks:
+                k = ks[0]
+                out.append(("[%s[].%s]" % (expr_of(p) if p else "", k), [e[k] for e in v]))
+        if isinstance(v, dict):
+            subs = [(k, x) for k, x in v.items() if isinstance(x, dict) and k != "<<"]
+            for i in range(len(subs) - 1):
+                (k1, x1), (k2, x2) = subs[i], subs[i + 1]
+                common = [k for k in x1 if k in x2 and k != "<<"]
+                if common:
+                    k = common[0]
+                    out.append(("[(%s, %s) | .%s]" % (expr_of(p + (k1,)), expr_of(p + (k2,)), k), [x1[k], x2[k]]))
+    out = out[:limit]
+    return out + [("explode(.) | " + e, w) for e, w in out]
+
+
 def doc_exprs(paths):
     ex = []
     for p in paths:
@@ -595,6 +631,9 @@ def replay(rp):
             return k == "ok" and [json.loads(x) for x in v.split("\n")] == want
         except Exception:
             return False
+    if rp.get("kind") == "iter":
+        got = parse_json(obs(multi([(rp["yaml"], [rp["expr"]])])[0][0]))
+        return got[0] == "ok" and got[1] == rp["want"]
     if rp.get("kind") != "doc":
         return False
     # the document is rebuilt from its YAML text only for the implementation; ground truth travels with the replay
@@ -652,8 +691,27 @@ def run(chk):
     texts = [yaml_of(d) for d, _, _, _ in cases]
     res = multi([(t, doc_exprs(ps)) for t, (_, _, ps, _) in zip(texts, cases)])
     resy = multi([(t, ["explode(.)"]) for t in texts], out="yaml")
+    iters = [iter_exprs(truth) for _, truth, _, _ in cases]
+    resi = multi([(t, [e for e, _ in it] or ["."]) for t, it in zip(texts, iters)])
+    stats["iterating_reads"] = sum(len(it) for it in iters)
     nviol = 0
     c1, c2, c3, cdom = [], [], [], []
+    for (doc, truth, ps, prof), text, it, ri in zip(cases, texts, iters, resi):
+        cl = doc_classes(doc)
+        for (e, want), r in zip(it, ri):
+            got = parse_json(obs(r))
+            if got[0] == "ok" and got[1] == want:
+                continue
+            detail = "iterating read %s gives %r, the resolved document has %r" % (e, got[1:] if got[0] == "ok" else got, want)
+            rp = {"kind": "iter", "yaml": text, "expr": e, "want": want, "detail": detail}
+            unknown = [c for c in cl if not chk.is_known(c)]
+            if cl and not unknown:
+                for c in cl:
+                    stats["known_class_hits"][c] = stats["known_class_hits"].get(c, 0) + 1
+            else:
+                nviol += 1
+                if nviol <= 6:
+                    chk.violation(rp, True, detail + "  [" + text[:200] + "]")
     for (doc, truth, ps, prof), text, rs, ry in zip(cases, texts, res, resy):
         stats["docs"] += 1
         cl = doc_classes(doc)
@@ -785,6 +843,8 @@ def run(chk):
              "for each document up to 14 read paths drawn from the independently resolved ground truth (leaves and containers) plus missing keys, "
              "each read by PATH, by explode(.) | PATH, from -o=json . , by explode(PATH) | PATH, by PATH | to_json(0) | from_json and PATH | @json | from_json (and PATH | to_props scanned for <<); explode(.) is also printed as YAML and scanned for & * <<. "
              "Anchors also sit on map KEYS (an alias to one reads the key's text) and anchored maps / sequences carry custom tags (!cfg ...) as merge and alias targets. "
+             "Iterating reads ([P[].k] over sequences of maps, [(P1, P2) | .k] over sibling maps, before and after explode) are compared with the resolved document; "
+             "directed fixed documents use one anchor twice and redefine an anchor name inside the node that first carries it. "
              "About a third of the documents define an anchor name more than once (aliases and merges after each definition), and streams of 2-3 "
              "documents re-use the same anchor names in every document (oracle only: the anchor table of yaml.v3 / yq's anchorMap is tested, not modelled). "
              "A case is one (document, path); non-trivial when the document contains an alias; distinct by text.",
